@@ -208,4 +208,38 @@ static inline Case gen_case()
         return c;
 }
 
+// another case that exercises the same code (same kind and the same family / operation / entry point) with fresh data
+static inline Case gen_sibling(const Case &t)
+{
+        using namespace pbt;
+        Case c;
+        c.kind = t.kind;
+        c.seed = rng64(1, UINT64_MAX - 8);
+        if (t.kind == "hash") {
+                he::GenOpts go;
+                go.allow_bad = false;
+                go.max_cmds = 24;
+                go.big_max = 2048;
+                for (auto &f : g_hash)
+                        if (f.label() == t.h.fam) { c.h = he::gen_case(f, go); return c; }
+                c.h = t.h;
+        } else if (t.kind == "mh") {
+                for (auto &f : g_mh)
+                        if (f.label() == t.m.fam) { c.m = mh::gen_case(f, 6000); return c; }
+                c.m = t.m;
+        } else if (t.kind == "aes") {
+                c.a = aops::gen_case(g_O);
+                c.a.op = t.a.op;
+                if (c.a.op.find("_nt") != std::string::npos) c.a.pre_len = c.a.pre_len / 64 * 64;
+        } else {
+                c.entry = t.entry;
+                c.legacy = t.legacy;
+                c.len = t.len;
+                c.aad_len = t.aad_len;
+                c.tag_len = t.tag_len;
+                c.flags = t.flags;
+        }
+        return c;
+}
+
 } // namespace oo
